@@ -1,6 +1,7 @@
 /* all arguments nondeterministic: the contract's requires clauses (is_fresh, lengths,
  * data invariants) define the domain; pointers are allocated by __CPROVER_is_fresh */
 void harness(void) {
+  VERIF_PROLOGUE();
   const uint8_t *key;
   uint32_t *key_words;
   load_key_words(key, key_words);
